@@ -139,7 +139,7 @@ let tape_of_line l =
   | ["LC"; "TMR"; rc; rq] -> Some (TMR (zi rc, bi rq))
   | ["LC"; "TX"; s; st] -> Some (TX (si s, zi st))
   | ["LC"; "TE"; id; st] -> Some (TE (qid (int_of_string id), zi st))
-  | ["LC"; "TP"; rc; n; v4] -> Some (TP (zi rc, bi n, bi v4))
+  | ["LC"; "TP"; rc; n; v4; v6] -> Some (TP (zi rc, bi n, bi v4, bi v6))
   | ["LC"; "TR"; rc] -> Some (TR (zi rc))
   | ["LC"; "TK"] -> Some TK
   | ["LC"; "TKE"] -> Some TKE
@@ -312,7 +312,7 @@ let tev_str = function
   | TCL s -> "TCL " ^ ns s
   | TE (q, st) -> Printf.sprintf "TE %s %s" (ns q) (zs st)
   | TS -> "TS" | TG -> "TG" | TK -> "TK" | TKE -> "TKE"
-  | TP (rc, a, b) -> Printf.sprintf "TP %s %s %s" (zs rc) (bs a) (bs b)
+  | TP (rc, a, b, c) -> Printf.sprintf "TP %s %s %s %s" (zs rc) (bs a) (bs b) (bs c)
   | TR rc -> "TR " ^ zs rc
 let call_str = function
   | ASync (t, st) -> Printf.sprintf "ASync %s %s" (ns t) (zs st)
